@@ -382,7 +382,10 @@ func runRecoveryTxn(fields []string) string {
 	if err != nil {
 		return "I=setup-error\tO=" + err.Error()
 	}
-	for _, p := range []string{"/ok", "/seed/a", "/seed/b/{x}", "/seed/c", "/seed/b", "/seed/b/y"} {
+	// order matters: "/seed/c" comes last so that the node "/seed/" was last rebuilt by an insert that APPENDED a child (its
+	// children slice then has spare capacity, which an aliasing defect needs); a later descent through it would replace it
+	// by an exact-capacity clone
+	for _, p := range []string{"/ok", "/seed/a", "/seed/b/{x}", "/seed/b", "/seed/b/y", "/seed/c"} {
 		if _, err := f.Handle(http.MethodGet, p, okHandler); err != nil {
 			return "I=setup-error\tO=" + err.Error()
 		}
